@@ -283,3 +283,19 @@ Theorem C16_bucket_tz_on_local_boundary : forall ws off secs g, 0 <= ws <= 6 ->
   on_boundary ws g (calendar_bucket_secs_off ws off secs g + off).
 Proof. exact bucket_off_on_local_boundary. Qed.
 Print Assumptions C16_bucket_tz_on_local_boundary.
+
+(** ** PER buckets in a zone whose offset changes (daylight saving), and sequences of rows *)
+From Snel Require Import Model.BucketZone Proofs.BucketZoneProofs.
+
+(** a zone without transitions is the fixed-offset model above *)
+Theorem C16_bucket_zone_fixed : forall strict ws off secs g,
+  bucket_zone_with strict ws (off, nil) secs g = Some (calendar_bucket_secs_off ws off secs g).
+Proof. exact bucket_zone_fixed. Qed.
+Print Assumptions C16_bucket_zone_fixed.
+
+(** the bucket of a row of a sequence is the bucket of its instant alone (no dependence on the rows
+    bucketed before it) *)
+Theorem C16_bucket_zone_seq_pointwise : forall ws zn g pre secs post,
+  nth_error (bucket_zone_seq ws zn g (pre ++ secs :: post)) (length pre) = Some (bucket_zone ws zn secs g).
+Proof. exact bucket_zone_seq_pointwise. Qed.
+Print Assumptions C16_bucket_zone_seq_pointwise.
